@@ -24,10 +24,10 @@ echo "== suite with patch"
 cargo nextest run --workspace --no-fail-fast --test-threads 8 --offline -E "not binary($TEST)" 2>&1 | tail -4
 echo "SUITE_EXIT ${PIPESTATUS[0]}"
 echo "== demo with patch (expect fail)"
-cargo test --offline -j 8 --test "$TEST" 2>&1 | tail -8
+timeout 400 cargo test --offline -j 8 --test "$TEST" 2>&1 | tail -8
 echo "DEMO_WITH_EXIT ${PIPESTATUS[0]}"
 git reset -q --hard
 echo "== demo without patch (expect pass)"
-cargo test --offline -j 8 --test "$TEST" 2>&1 | tail -4
+timeout 400 cargo test --offline -j 8 --test "$TEST" 2>&1 | tail -4
 echo "DEMO_WITHOUT_EXIT ${PIPESTATUS[0]}"
 rm -f "$WT/$DEMO"
